@@ -6,6 +6,7 @@ import (
 	"fmt"
 	"os"
 	"os/exec"
+	"os/signal"
 	"path/filepath"
 	"strconv"
 	"strings"
@@ -95,6 +96,11 @@ func TestMain(m *testing.M) {
 			}
 			os.Unsetenv("C20_CRASH")
 		}
+		if os.Getenv("C20_IGNORE_SIGINT") != "" {
+			// the caller runs with SIGINT ignored, as under nohup or as a background job of a non-interactive shell; the
+			// processes it starts inherit that
+			signal.Ignore(os.Interrupt)
+		}
 		name := daemonName
 		if n := os.Getenv("C20_NAME"); n != "" {
 			name = n
@@ -127,6 +133,7 @@ type kase struct {
 	relativeArgv0    bool // the caller child is started through a relative path (./prog)
 	nested           bool // the launched daemon is a supervisor: it launches a worker daemon itself before Done()
 	shortLived       bool // the handler returns right after Done(): Launch still reports the pid it ran under
+	ignoresSigint    bool // the caller child runs with SIGINT ignored (nohup, background job)
 }
 
 func (k kase) name(i int) string {
@@ -159,6 +166,9 @@ func (k kase) String() string {
 	}
 	if k.shortLived {
 		s += " handlerReturnsRightAfterDone"
+	}
+	if k.ignoresSigint {
+		s += " callerIgnoresSIGINT"
 	}
 	return s
 }
@@ -251,6 +261,9 @@ func runCase(k kase) string {
 					cmd.Env = append(cmd.Env, kk+"="+v)
 				}
 				cmd.Env = append(cmd.Env, "C20_ROLE=caller", "C20_NAME="+k.name(i))
+				if k.ignoresSigint {
+					cmd.Env = append(cmd.Env, "C20_IGNORE_SIGINT=1")
+				}
 				if k.afterFailed {
 					cmd.Env = append(cmd.Env, "C20_FAIL_FIRST=1")
 				}
@@ -551,6 +564,7 @@ func TestGenerated(t *testing.T) {
 		k.relativeArgv0 = k.childCaller && rapid.IntRange(0, 2).Draw(t, "relativeArgv0") == 0
 		k.nested = k.cleansEnv == 0 && rapid.IntRange(0, 3).Draw(t, "daemonLaunchesAWorker") == 0
 		k.shortLived = !k.nested && rapid.IntRange(0, 3).Draw(t, "handlerReturnsAfterDone") == 0
+		k.ignoresSigint = k.childCaller && rapid.IntRange(0, 2).Draw(t, "callerIgnoresSIGINT") == 0
 		msg := runCase(k)
 		if strings.HasPrefix(msg, "harness:") {
 			ev.Inconclusive(1)
@@ -579,6 +593,9 @@ func TestGenerated(t *testing.T) {
 		}
 		if k.shortLived {
 			ev.Label("handler_returns_right_after_Done")
+		}
+		if k.ignoresSigint {
+			ev.Label("caller_runs_with_SIGINT_ignored")
 		}
 		ev.Case(k.nontrivial(), ev.Hash(k.String()), k.String)
 	})
